@@ -66,6 +66,8 @@ fn main() {
     let args = parse_args();
     let t0 = std::time::Instant::now();
     let quick = args.tier != "thorough";
+    // tiny volumes for the Miri interpreter (E6); socket-free engines only
+    let miri = args.tier == "miri";
     let seed = args.seed;
     let n = args.threads;
     use vmon::router_engine as re;
@@ -73,9 +75,9 @@ fn main() {
         "c01-router" | "c04-router" | "c03-router" => {
             let prop = args.engine[..3].to_uppercase();
             let w = re::Work {
-                tables: if quick { 40 } else { 1500 },
-                probes: if quick { 250 } else { 400 },
-                perms: if quick { 3 } else { 5 },
+                tables: if miri { 3 } else if quick { 40 } else { 1500 },
+                probes: if miri { 25 } else if quick { 250 } else { 400 },
+                perms: if miri { 2 } else if quick { 3 } else { 5 },
                 // not judged: dropshot deliberately folds method tokens to upper
                 // case; the properties do not speak about token case (DESIGN §7-F2)
                 method_case: false,
@@ -86,16 +88,16 @@ fn main() {
             sharded(n, move |s| re::run_shard(&p2, seed, s, &w))
         }
         "c03-spellings" => {
-            let (cases, per) = if quick { (400, 12) } else { (40_000, 16) };
+            let (cases, per) = if miri { (25, 4) } else if quick { (400, 12) } else { (40_000, 16) };
             sharded(n, move |s| re::run_spellings(seed, s, cases, per))
         }
         "c03-dots" => re::run_dot_enumeration(),
         "c02-registration" => {
-            let seqs = if quick { 150 } else { 12_000 };
+            let seqs = if miri { 6 } else if quick { 150 } else { 12_000 };
             sharded(n, move |s| vmon::c02::run(seed, s, seqs, true))
         }
         "c06-openapi" => {
-            let (tables, perms, cross) = if quick { (60, 3, 8) } else { (1500, 4, 60) };
+            let (tables, perms, cross) = if miri { (2, 2, 0) } else if quick { (60, 3, 8) } else { (1500, 4, 60) };
             sharded(n, move |s| vmon::c06::run(seed, s, tables, perms, cross))
         }
         "c06-hash" => {
@@ -162,7 +164,7 @@ fn main() {
             sharded(n, move |s| vmon::c05::run_exhaustive(s, ns))
         }
         "c05-random" => {
-            let cases = if quick { 500 } else { 60_000 };
+            let cases = if miri { 25 } else if quick { 500 } else { 60_000 };
             sharded(n, move |s| vmon::c05::run_random(seed, s, cases))
         }
         _ => usage(),
